@@ -103,7 +103,7 @@ func runC03(c *core.Ctx, o Options) {
 		}
 	}
 	c.Check(okParse, "V5", "validateRaw", "BeginString, BodyLength and CheckSum are looked up in the input by the message's own tags", vr.Pos(), "unmarshalItems({bs, bl, cs}, d)", "the three framing fields are not all extracted from d with the message's tags")
-	paths, _ := an.EnumPaths(vr, 1024)
+	paths, _ := an.EnumPathsX(vr, 1024) // helpers of the validation (a parser for the declared length, …) are walked through
 	var cmpLen, cmpSum string
 	var sumCall, eq *ssa.Call
 	an.AllInstrs(vr, func(in ssa.Instruction) {
